@@ -94,7 +94,10 @@ def one(case, rng, d, idx):
     rec = {"case": case, "overwrite": case["overwrite"], "injected_ok": False, "exc": "", "names_in": [n for n, _ in min_], "names_out": [],
            "same": [False], "pkl_index": 1, "input_same": False, "input_is_injected": False, "stray": [], "ran": -1, "model_equal": False, "loaded": False}
     try:
-        PyTorchModelWrapper(src).inject_payload(payload, dst, injection="insertion", overwrite=case["overwrite"])
+        if idx % 2:         # both calling conventions of the documented signature (payload, output_path, injection, overwrite)
+            PyTorchModelWrapper(src).inject_payload(payload, dst, "insertion", case["overwrite"])
+        else:
+            PyTorchModelWrapper(src).inject_payload(payload, dst, injection="insertion", overwrite=case["overwrite"])
         rec["injected_ok"] = True
     except Exception as e:  # noqa: BLE001
         rec["exc"] = (type(e).__name__ + " " + str(e)[:60]).replace('"', "'")
